@@ -6,7 +6,7 @@ from fractions import Fraction as F
 
 from hypothesis import strategies as st
 
-from vlib.core import Violation, guarded, lib_call
+from vlib.core import Violation, engine_limits, guarded, lib_call
 
 DEFAULTS = dict(nodeSpacing=3, minPos=0, maxPos=None, algorithm="overlap", density=0.85, stubWidth=1)
 LINE_SPACING = 2
@@ -153,6 +153,10 @@ def options(draw, lbls, bounds_emphasis=False, algorithms=("overlap", "overlap",
             W = 0.7 * R0
         if W <= 0:
             W = 20
+        if len(lbls) > 60 and W < R0 / 8:
+            # cost bound of the generator, not of the property: > 60 labels squeezed into dozens of layers take
+            # tens of seconds per layout (the engine is cubic there); such label sets get at most ~8 layers
+            W = R0 / 8
         o["maxPos"] = (lo if lo is not None else draw(st.integers(-100, 300))) + W
         if draw(st.integers(0, 11)) == 0:
             # an axis that ends exactly at 0 (bounds are numbers; 0 is as good as any)
@@ -194,7 +198,8 @@ def run_layout(spec, ctx=None):
         f.compute()
         return f, nodes
 
-    return guarded(lambda: lib_call(thunk), ctx)
+    secs, budget = engine_limits(len(spec["labels"]))
+    return guarded(lambda: lib_call(thunk), ctx, secs, budget)
 
 
 def make_force(spec):
